@@ -19,6 +19,7 @@ def matchesPrefix (used : String → Bool) (prefix_ : Expr) : Bool :=
 
 def matcher : Matcher where
   matchesPrefix := matchesPrefix
+  watched := ["debug"]
 
 def apply (preserve : Bool) (b : Block) : Block × Bool := RemoveCallMatch.apply matcher preserve b
 
